@@ -2993,8 +2993,8 @@ def thread_generator(body):
             state["started"] = True
             th.start()
         to_gen.release()
-        # the helper thread unwinds (its pending `finally` blocks run) before the consumer goes on; never wait for ever
-        to_consumer.acquire(timeout=10)
+        # the helper thread unwinds (its pending `finally` blocks run) before the consumer goes on; never wait for ever (two minutes: a busy machine is not a deadlock)
+        to_consumer.acquire(timeout=120)
 
     def gen():
         try:
